@@ -27,6 +27,27 @@ pub mod secp256k1_scalar;
 pub mod types;
 pub mod zero_poly_coset;
 
+/// Read-only re-exports of crate-private arithmetic for the external verification harness.
+#[cfg(feature = "verif_hooks")]
+pub mod verif_hooks {
+    use crate::goldilocks_field::GoldilocksField;
+
+    /// # Safety
+    /// See `goldilocks_field::reduce160`.
+    pub unsafe fn reduce160(x_lo: u128, x_hi: u32) -> GoldilocksField {
+        crate::goldilocks_field::reduce160(x_lo, x_hi)
+    }
+    pub fn ext2_mul(a: [u64; 2], b: [u64; 2]) -> [GoldilocksField; 2] {
+        crate::goldilocks_extensions::ext2_mul(a, b)
+    }
+    pub fn ext4_mul(a: [u64; 4], b: [u64; 4]) -> [GoldilocksField; 4] {
+        crate::goldilocks_extensions::ext4_mul(a, b)
+    }
+    pub fn ext5_mul(a: [u64; 5], b: [u64; 5]) -> [GoldilocksField; 5] {
+        crate::goldilocks_extensions::ext5_mul(a, b)
+    }
+}
+
 #[cfg(test)]
 mod field_testing;
 
